@@ -284,6 +284,31 @@ func (c *ctx) rangeTrie(ti int, rr *lib.RNG, rcfg string, out chan<- batch) {
 				}
 				eval(cl)
 			}
+			// TRUE claims with an altered node set: the list is right, so acceptance is no violation;
+			// the verifier must not panic, `more` must stay right, and the model must give the same
+			// verdict (proofToPath / resolvePT on bad nodes in the two-path case). trie2 only: the
+			// legacy verifier's `more` flag is wrong on honest sets already (known finding)
+			if impl == "trie2" && len(proof) > 1 && !(lo == hi && first == kvs[lo].K) {
+				ni := rr.Intn(len(proof))
+				dropped := append(proof[:ni:ni].clone(), proof[ni+1:]...)
+				eval(mkClaim("true-claim-proof-node-dropped", first, lo, hi, dropped))
+				alt := proof.clone()
+				switch n := &alt[ni]; {
+				case n.Kind == "E":
+					n.C.F = bumpHex(n.C.F)
+				case rr.Bool():
+					n.L.F = bumpHex(n.L.F)
+				default:
+					n.R.F = bumpHex(n.R.F)
+				}
+				eval(mkClaim("true-claim-proof-node-child-altered", first, lo, hi, alt))
+				if alt2 := proof.clone(); alt2[ni].Kind == "E" && len(alt2[ni].Path) > 0 {
+					pb := []byte(alt2[ni].Path)
+					pb[len(pb)-1] ^= 1
+					alt2[ni].Path = string(pb)
+					eval(mkClaim("true-claim-proof-node-path-altered", first, lo, hi, alt2))
+				}
+			}
 			// the cases of verifyProofData's preamble
 			if hi > lo {
 				tamp("keys-unsorted", func(cl *RangeClaim) {
